@@ -588,6 +588,9 @@ def plugin_env():
     warnings.simplefilter("ignore")
     from octoprint.settings import settings as octoprint_settings
     base = tempfile.mkdtemp(prefix="erp-octoprint-", dir="/verif/.work")
+    import atexit
+    import shutil
+    atexit.register(shutil.rmtree, base, True)
     octoprint_settings(init=True, basedir=base)
     import octoprint_excluderegion as pkg
     from octoprint.plugin import plugin_settings
